@@ -342,6 +342,81 @@ def special_cases(exe, w):
     return v, n
 
 
+def long_path_cases(exe, base_dir, sigprefix):
+    """A relative path of exactly PATH_MAX-1 = 4095 bytes made only of characters that need escaping
+    (each doubles in the printed line, which becomes > 8 KiB): b3sum [--tag] prints it, b3sum --check
+    of that output must verify it."""
+    v = []
+    n = 0
+    classes = set()
+    for ci, (ch, tag) in enumerate([(b"\\", False), (b"\\", True), (b"\n", False), (b"\n\\", True)]):
+        root = os.path.join(base_dir, "long%d" % ci)
+        os.mkdir(root)
+        comp = (ch * 255)[:255]
+        comps = [comp] * 16
+        rel = b"/".join(comps)
+        assert len(rel) == 4095
+        try:
+            fd = os.open(root, os.O_RDONLY | os.O_DIRECTORY)
+            for c in comps[:-1]:
+                os.mkdir(c, dir_fd=fd)
+                nfd = os.open(c, os.O_RDONLY | os.O_DIRECTORY, dir_fd=fd)
+                os.close(fd)
+                fd = nfd
+            ffd = os.open(comps[-1], os.O_WRONLY | os.O_CREAT, 0o600, dir_fd=fd)
+            os.write(ffd, b"file behind a path of 4095 bytes %d" % ci)
+            os.close(ffd)
+            os.close(fd)
+        except OSError as e:
+            v.append(("inconclusive", "cannot create a 4095-byte path here: %s" % e))
+            continue
+        env = dict(os.environ)
+        env["RUST_BACKTRACE"] = "0"
+        p = subprocess.run([exe.encode() if isinstance(exe, str) else exe] + ([b"--tag"] if tag else []) + [rel], cwd=root, stdout=subprocess.PIPE, stderr=subprocess.PIPE, env=env)
+        n += 1
+        form = "tag" if tag else "plain"
+        classes.add("long-path/%s/%r" % (form, ch))
+        want_hash = b3spec.xof(b"file behind a path of 4095 bytes %d" % ci).hex().encode()
+        if p.returncode != 0 or want_hash not in p.stdout:
+            v.append(("%s/long-path/hash" % sigprefix, "b3sum%s on a 4095-byte relative path of %r: exit %s, stdout %r..., stderr %r" % (" --tag" if tag else "", ch, p.returncode, p.stdout[:120], p.stderr[:200])))
+            continue
+        c = subprocess.run([exe, "--check"], cwd=root, input=p.stdout, stdout=subprocess.PIPE, stderr=subprocess.PIPE, env=env)
+        n += 1
+        if c.returncode != 0 or not c.stdout.rstrip(b"\n").endswith(b": OK") or c.stdout.count(b"\n") != 1:
+            v.append(("%s/long-path/check-rejects-own-output" % sigprefix, "b3sum%s printed a %d-byte line for a 4095-byte path made of %r; b3sum --check of that line: exit %s, stdout %r..., stderr %r" % (" --tag" if tag else "", len(p.stdout), ch, c.returncode, c.stdout[-80:], c.stderr[-200:])))
+    return v, n, classes
+
+
+def stdin_offset_cases(exe, w, rnd):
+    """Standard input is an already-open descriptor: when it is a regular file whose offset is not 0
+    (`{ head -c N >/dev/null; b3sum; } < file`), the bytes from the offset on are the input."""
+    v = []
+    n = 0
+    classes = set()
+    data = rnd.randbytes(200000)
+    path = os.path.join(w.dir, "stdin_file.bin")
+    with open(path, "wb") as f:
+        f.write(data)
+    for off in (0, 1, 4096, 70001, 183617, len(data)):
+        for argv in ([], ["-"], ["--no-mmap"], ["--num-threads", "1", "-"], ["--length", "50", "--seek", "3"]):
+            with open(path, "rb") as f:
+                f.seek(off)
+                os.lseek(f.fileno(), off, os.SEEK_SET)
+                env = dict(os.environ)
+                env["RUST_BACKTRACE"] = "0"
+                p = subprocess.run([exe] + argv, cwd=w.dir, stdin=f, stdout=subprocess.PIPE, stderr=subprocess.PIPE, env=env)
+            n += 1
+            classes.add("stdin-file/offset-%s/%s" % ("0" if off == 0 else "end" if off == len(data) else "mid", "-".join(argv) or "default"))
+            if "--length" in argv:
+                want = b3spec.xof(data[off:], seek=3, length=50).hex().encode()
+            else:
+                want = b3spec.xof(data[off:]).hex().encode()
+            first = p.stdout.split(b" ")[0].strip()
+            if p.returncode != 0 or first != want:
+                v.append(("C12/hash/stdin-file-offset", "b3sum %s with standard input = a %d-byte regular file positioned at offset %d: exit %s, printed %r, the remaining bytes hash to %r" % (argv, len(data), off, p.returncode, p.stdout[:70], want[:64])))
+    return v, n, classes
+
+
 def stream_cases(exe, w, rnd, thorough):
     """Inputs that are not regular files: a FIFO fed in bursts (data arrives in several short reads),
     a seekable sysfs file that cannot be mapped. With and without --no-mmap, several modes."""
@@ -437,6 +512,15 @@ def run(exe, seed, thorough, scale=1.0):
             violations.append((sig, detail, -2))
         sn += tn
         classes |= tclasses
+        for fn in (lambda: stdin_offset_cases(exe, w, rnd), lambda: long_path_cases(exe, w.dir, "C12/check")):
+            xv, xn, xclasses = fn()
+            for sig, detail in xv:
+                if sig == "inconclusive":
+                    inconclusive += 1
+                else:
+                    violations.append((sig, detail, -3))
+            sn += xn
+            classes |= xclasses
         samples = []
         for c in cases[:2] + cases[n_hash:n_hash + 2]:
             s = {"kind": c["kind"], "argv": c["argv"], "class": c["class"]}
@@ -477,15 +561,26 @@ def run_names(b3sum, b3mon, seed, thorough, scale=1.0):
     try:
         nbatches = int((600 if thorough else 60) * scale)
         fileno = 0
-        for bi in range(nbatches):
+        # systematic: the first double space / ") = " of a name at every offset 0..79, in both forms
+        # (a fixed-width rule for one form must not capture lines of the other form)
+        systematic = []
+        for sep in (b"  ", b") = ", b"  ) = "):
+            for k0 in range(0, 80, 8):
+                for tagged in (False, True):
+                    systematic.append(([b"a" * k + sep + b"b" for k in range(k0, k0 + 8)], tagged))
+        for bi in range(len(systematic) + nbatches):
             names = []
             sub = os.path.join(d, b"b%d" % bi)
             os.mkdir(sub)
-            for _ in range(rnd.randrange(1, 9)):
-                n = b"".join(rnd.choice(NAME_PIECES) for _ in range(rnd.randrange(1, 7)))
-                if n in (b".", b"..") or n in names or len(n) > 200 or n.startswith(b"-"):
-                    continue
-                names.append(n)
+            forced_tag = None
+            if bi < len(systematic):
+                names, forced_tag = list(systematic[bi][0]), systematic[bi][1]
+            else:
+                for _ in range(rnd.randrange(1, 9)):
+                    n = b"".join(rnd.choice(NAME_PIECES) for _ in range(rnd.randrange(1, 7)))
+                    if n in (b".", b"..") or n in names or len(n) > 200 or n.startswith(b"-"):
+                        continue
+                    names.append(n)
             if not names:
                 continue
             contents = {}
@@ -503,7 +598,7 @@ def run_names(b3sum, b3mon, seed, thorough, scale=1.0):
             names = ok
             if not names:
                 continue
-            tag = rnd.random() < 0.5
+            tag = (rnd.random() < 0.5) if forced_tag is None else forced_tag
             argv = [b3sum.encode()] + ([b"--tag"] if tag else []) + names
             env = dict(os.environ)
             env["RUST_BACKTRACE"] = "0"
@@ -551,6 +646,11 @@ def run_names(b3sum, b3mon, seed, thorough, scale=1.0):
                 violations.append(("C13/cli/%s/check-disagrees" % form, "b3sum%s | b3sum --check over names %r: %d OK lines (expected %d representable), exit %s; stdout %r stderr %r" % (" --tag" if tag else "", names, len(oks), nrep, c.returncode, c.stdout[:300], c.stderr[:200])))
             if len(samples) < 3:
                 samples.append({"names": [repr(n) for n in names], "form": form, "printed": p.stdout.decode("utf-8", "replace")[:400]})
-        return {"evaluations": evaluations, "distinct": len(classes), "violations": violations, "samples": samples, "classes": sorted(classes)}
+        lv, ln, lclasses = long_path_cases(b3sum, d.decode(), "C13/cli")
+        inconclusive = [detail for sig, detail in lv if sig == "inconclusive"]
+        violations += [x for x in lv if x[0] != "inconclusive"]
+        evaluations += ln
+        classes |= lclasses
+        return {"evaluations": evaluations, "distinct": len(classes), "violations": violations, "samples": samples, "classes": sorted(classes), "inconclusive": inconclusive}
     finally:
         shutil.rmtree(d, ignore_errors=True)
